@@ -39,9 +39,9 @@ fn render(c: &Value, variant: usize) -> String {
             let mut sub: Vec<String> = vec![];
             for i in arr("inls") {
                 let rg: Vec<String> = i["ranges"].as_array().unwrap().iter().map(|r| format!("{:x} {:x}", r[0].as_u64().unwrap(), r[1].as_u64().unwrap())).collect();
-                sub.push(format!("INLINE {} {} 1 {} {}\n", i["depth"].as_u64().unwrap(), i["cline"].as_u64().unwrap(), i["origin"].as_u64().unwrap(), rg.join(" ")));
+                sub.push(format!("INLINE {} {} {} {} {}\n", i["depth"].as_u64().unwrap(), i["cline"].as_u64().unwrap(), i["cfile"].as_u64().unwrap_or(1), i["origin"].as_u64().unwrap(), rg.join(" ")));
             }
-            for l in arr("lines") { sub.push(format!("{:x} {:x} {} 1\n", l["addr"].as_u64().unwrap(), l["size"].as_u64().unwrap(), l["line"].as_u64().unwrap())); }
+            for l in arr("lines") { sub.push(format!("{:x} {:x} {} {}\n", l["addr"].as_u64().unwrap(), l["size"].as_u64().unwrap(), l["line"].as_u64().unwrap(), l["file"].as_u64().unwrap_or(1))); }
             if variant % 3 == 1 { sub.reverse(); }
             for x in sub { funcs.push_str(&x); }
         }
@@ -94,6 +94,22 @@ fn main() {
                         "expected": {"function": exp_func, "source": exp_src, "inlines": exp_inl}, "observed": {"function": r.func, "source": r.src, "inlines": r.inl}}));
                 } else if cls == "func+inlines" && exp_inl.len() >= 2 {
                     rep.sample(json!({"symbols": text, "address": k, "function": exp_func, "source": exp_src, "inlines": exp_inl}));
+                }
+            }
+        }
+        // an instruction below the module's base belongs to no record of this module
+        for &base in &bases[1..] {
+            for below in [1u64, 3, 16] {
+                let module = SimpleModule { base_address: Some(base), size: Some(16), ..SimpleModule::default() };
+                let mut r = Rec { instruction: base - below, ..Rec::default() };
+                let res = guarded(|| sym.fill_symbol(&module, &mut r));
+                rep.evaluations += 1;
+                rep.class("below-base");
+                match res {
+                    Err(p) => rep.mismatch(&format!("symlookup:panic:{}", p), json!({"symbols": text, "module_base": format!("{:#x}", base), "instruction_below_base_by": below})),
+                    Ok(()) => if r.func.is_some() || r.src.is_some() || !r.inl.is_empty() {
+                        rep.mismatch("symlookup:below-base", json!({"symbols": text, "module_base": format!("{:#x}", base), "instruction_below_base_by": below, "observed": {"function": r.func, "source": r.src, "inlines": r.inl}}));
+                    },
                 }
             }
         }
